@@ -364,7 +364,11 @@ func genE2E12(r *rand.Rand) e2eCase {
 	st := newGraph(ctx, "?g", ts)
 	var sel, where string
 	var outs []string
-	switch r.Intn(6) {
+	switch r.Intn(7) {
+	case 6:
+		// NAME COLLISION: an alias that is also the name of a pattern binding (ORDER BY ?o sorts by the subject)
+		c.Shape = "shadow"
+		sel, where, outs = "?o AS ?val, ?s AS ?o", `{?s "v"@[] ?o}`, []string{"?val", "?o"}
 	case 0:
 		c.Shape = "one-clause"
 		sel, where, outs = "?s, ?o", `{?s "v"@[] ?o}`, []string{"?s", "?o"}
